@@ -1552,6 +1552,156 @@ const SYNTH: [(&str, &[&str]); 15] = [
     ("application/c2pa", &["-"]),
 ];
 
+// ---------------------------------------------------------------------------------------------
+// structure-aware label / URI mutation (same length, in place: works inside every container)
+
+/// (offset, length) of every JUMBF description-box label in `d`
+fn jumd_labels(d: &[u8]) -> Vec<(usize, usize)> {
+    let mut out = vec![];
+    let mut i = 4;
+    while i + 22 <= d.len() {
+        if &d[i..i + 4] == b"jumd" {
+            let size = be32(d, i - 4) as usize;
+            if (25..=2000).contains(&size) && i - 4 + size <= d.len() && d[i + 20] & 2 != 0 {
+                let from = i + 21;
+                let end = i - 4 + size;
+                if let Some(n) = d[from..end].iter().position(|b| *b == 0) {
+                    if n >= 1 && d[from..from + n].iter().all(|b| (0x20..0x7f).contains(b)) {
+                        out.push((from, n));
+                    }
+                }
+            }
+        }
+        i += 1;
+    }
+    out
+}
+
+/// Same-length hostile spellings of a label: multi-byte UTF-8 characters (2, 3, 4 bytes) at the
+/// start / middle / end of every `.`-, `/`- and `__`-separated component, dots, version and
+/// instance suffixes of the wrong shape, upper case, invalid UTF-8.
+fn label_rewrites(label: &[u8]) -> Vec<(String, Vec<u8>)> {
+    let n = label.len();
+    let mut out: Vec<(String, Vec<u8>)> = vec![];
+    // component ranges
+    let mut comps = vec![];
+    let mut s = 0;
+    let mut i = 0;
+    while i <= n {
+        let sep = if i == n {
+            1
+        } else if label[i] == b'.' || label[i] == b'/' {
+            1
+        } else if i + 1 < n && label[i] == b'_' && label[i + 1] == b'_' {
+            2
+        } else {
+            0
+        };
+        if sep > 0 {
+            if i > s {
+                comps.push((s, i));
+            }
+            s = i + sep;
+            i += sep;
+        } else {
+            i += 1;
+        }
+    }
+    let chars: [(&str, &[u8]); 3] = [("2b", "é".as_bytes()), ("3b", "€".as_bytes()), ("4b", "😀".as_bytes())];
+    for (ci, (a, b)) in comps.iter().enumerate() {
+        let len = b - a;
+        for (w, ch) in chars {
+            if ch.len() > len {
+                continue;
+            }
+            for (pos, at) in [("start", *a), ("middle", a + (len - ch.len()) / 2), ("end", b - ch.len())] {
+                let mut m = label.to_vec();
+                m[at..at + ch.len()].copy_from_slice(ch);
+                out.push((format!("comp{ci}-{pos}-{w}"), m));
+            }
+        }
+    }
+    let mut tail = |name: &str, t: &[u8]| {
+        if t.len() <= n {
+            let mut m = label.to_vec();
+            m[n - t.len()..].copy_from_slice(t);
+            out.push((format!("tail={name}"), m));
+        }
+    };
+    for (name, t) in [
+        ("dot", &b"."[..]), ("dot-v", b".v"), ("dot-v1", b".v1"), ("dot-vx", b".vx"), ("dot-v-2b", ".v\u{e9}".as_bytes()), ("dot-2b", ".\u{e9}".as_bytes()), ("dot-4b", ".\u{1f600}".as_bytes()),
+        ("dot-v-huge", b".v99999999999999999999"), ("uu", b"__"), ("uu-x", b"__x"), ("uu-1", b"__1"), ("uu-2b", "__\u{e9}".as_bytes()), ("uu-huge", b"__99999999999999999999"),
+        ("bad-utf8", &[0xff]), ("lone-continuation", &[0x80]), ("truncated-4b", &[0xf0, 0x9f]), ("slash", b"/"), ("nul-x", &[0, b'x']),
+    ] {
+        tail(name, t);
+    }
+    let mut head = |name: &str, t: &[u8]| {
+        if t.len() <= n {
+            let mut m = label.to_vec();
+            m[..t.len()].copy_from_slice(t);
+            out.push((format!("head={name}"), m));
+        }
+    };
+    for (name, t) in [("dot", &b"."[..]), ("uu", b"__"), ("2b", "\u{e9}".as_bytes()), ("4b", "\u{1f600}".as_bytes()), ("slash", b"/"), ("v1", b"v1."), ("bad-utf8", &[0xc3])] {
+        head(name, t);
+    }
+    out.push(("upper".into(), label.to_ascii_uppercase()));
+    out.push(("all-dots".into(), vec![b'.'; n]));
+    out.push(("all-2b".into(), "\u{e9}".as_bytes().iter().copied().cycle().take(n - n % 2).chain(std::iter::repeat(b'x').take(n % 2)).collect()));
+    out.retain(|(_, m)| m.len() == n && m != label);
+    out
+}
+
+/// (description, mutant) for one seed: each distinct label rewritten in its description box(es)
+/// and in the URIs that name it (`/label` elsewhere in the data) — consistently, label only, URIs only.
+fn label_mutants(d: &[u8], keep: &mut dyn FnMut(usize, bool) -> bool) -> Vec<(String, Vec<u8>)> {
+    let mut out = vec![];
+    let all = jumd_labels(d);
+    let mut seen: Vec<&[u8]> = vec![];
+    let mut j = 0usize;
+    for (off, n) in &all {
+        let label = &d[*off..*off + *n];
+        if seen.contains(&label) {
+            continue;
+        }
+        seen.push(label);
+        let boxes: Vec<usize> = all.iter().filter(|(o, l)| l == n && &d[*o..*o + *l] == label).map(|(o, _)| *o).collect();
+        let mut uris = vec![];
+        let mut p = 1;
+        while p + n <= d.len() {
+            if d[p - 1] == b'/' && &d[p..p + n] == label && !boxes.contains(&p) {
+                uris.push(p);
+            }
+            p += 1;
+        }
+        let name = String::from_utf8_lossy(label).to_string();
+        for (what, m) in label_rewrites(label) {
+            for (mode, in_box, in_uri) in [("both", true, true), ("box", true, false), ("uri", false, true)] {
+                if in_uri && !in_box && uris.is_empty() {
+                    continue;
+                }
+                j += 1;
+                if !keep(j, mode == "both" && what.contains("start-2b")) {
+                    continue;
+                }
+                let mut x = d.to_vec();
+                if in_box {
+                    for o in &boxes {
+                        x[*o..*o + n].copy_from_slice(&m);
+                    }
+                }
+                if in_uri {
+                    for o in &uris {
+                        x[*o..*o + n].copy_from_slice(&m);
+                    }
+                }
+                out.push((format!("label:{name}:{what}@{mode}"), x));
+            }
+        }
+    }
+    out
+}
+
 fn limit_cases(run: &mut Run, rng: &mut Rng) {
     use c2pa::{status_tracker::StatusTracker, verif_hooks::{c10 as h10, c18 as h18, c20 as h20}};
     let thorough = run.thorough();
@@ -2993,6 +3143,27 @@ pub fn run(run: &mut Run, rng: &mut Rng) {
                     }
                 }
             }
+        }
+    }
+    // label / URI spellings (JUMBF description-box labels and the URIs naming them), same length,
+    // inside the asset of every container and in raw stores
+    for (si, s) in seeds.iter().enumerate() {
+        let wanted = if thorough {
+            s.data.len() <= 1_100_000
+        } else {
+            ["signed:IMG_0003.jpg", "signed:libpng-test.png", "signed:test.webp", "fixture:CA.jpg", "store:fresh-ed25519", "store:C.jpg", "store:CACA.jpg"].contains(&s.name.as_str())
+        };
+        if !wanted || s.archive {
+            continue;
+        }
+        let step = if thorough { 1 } else { 4 };
+        let mut keep = |j: usize, always: bool| always || (j + si) % step == 0;
+        let ms = label_mutants(&s.data, &mut keep);
+        if !ms.is_empty() {
+            run.count("label_seeds");
+        }
+        for (what, d) in ms {
+            emit!(Case { seed: si, what, hint: s.fmt, data: d, archive: false });
         }
     }
     // tiny inputs under every hint
